@@ -962,10 +962,16 @@ class CertBuilder:
     def raw(self, nd):
         kind = self.kind_of(nd)
         s, e = nd.span
-        ty = self.by.get((s, e, kind))
+        ty = None
+        # the span of a parenthesised term includes all its (possibly repeated) parentheses
+        for d in (0, 1, -1, -2, -3):
+            ty = self.by.get((s + d, e - d, kind))
+            if ty is not None:
+                break
         if ty is None:
-            ty = self.by.get((s + 1, e - 1, kind))
-        if ty is None:
+            lit = {"num": NUM, "str": STR, "bool": BOOL}.get(nd.k)
+            if lit is not None:
+                return lit
             raise CertError("the typechecker reported no type for the %s node at %d-%d" % (nd.k, s, e))
         t = conv_tc_type(ty)
         if t is None:
@@ -1077,3 +1083,123 @@ def cert_from_tc(prog, terms, idents):
         return CertBuilder(terms, idents).build(prog["ast"]), None
     except CertError as ex:
         return None, str(ex)
+
+
+# ---------------------------------------------------------------------- mutants (still fragment syntax)
+
+def clone(n):
+    if isinstance(n, N):
+        m = N(n.k, clone(n.a), n.ty, clone(n.x) if isinstance(n.x, list) else n.x)
+        return m
+    if isinstance(n, list):
+        return [clone(x) for x in n]
+    if isinstance(n, tuple):
+        return tuple(clone(x) for x in n)
+    return n
+
+
+def typed_nodes(n, acc):
+    """nodes of typed code (the interior of holes is not entered)"""
+    if not isinstance(n, N):
+        if isinstance(n, (list, tuple)):
+            for x in n:
+                typed_nodes(x, acc)
+        return acc
+    acc.append(n)
+    if n.k == "hole":
+        return acc
+    if n.k == "plet":
+        typed_nodes(n.a[4], acc)
+        return acc
+    for x in n.a:
+        typed_nodes(x, acc)
+    return acc
+
+
+OTHER_PRIM2 = {"add": ["concat", "lt", "arrcat"], "sub": ["concat", "eq"], "mul": ["concat", "le"], "div": ["concat"],
+               "lt": ["add", "concat"], "le": ["sub"], "gt": ["mul"], "ge": ["concat"],
+               "concat": ["add", "arrcat", "lt"], "arrcat": ["concat", "add"], "eq": ["add", "concat", "lt"],
+               "arrat": ["arrmap", "add"], "arrmap": ["arrat", "arrcat"]}
+
+
+def other_type(T, rng):
+    cands = [U for U in [NUM, STR, BOOL, ("arr", NUM), ("enum", ("A",)), ("rec", (("fa", NUM),))] if U != T]
+    return rng.choice(cands)
+
+
+def mutate(prog, rng):
+    """one mutation of the typed part of a generated program; returns a new program dict or None"""
+    ast = clone(prog["ast"])
+    T = prog["type"]
+    nodes = typed_nodes(ast, [])
+    what = None
+    for _ in range(20):
+        n = rng.choice(nodes)
+        k = n.k
+        c = rng.below(10)
+        if k == "prim2" and c < 5:
+            n.a[0] = rng.choice(OTHER_PRIM2[n.a[0]])
+            what = "swap-primitive"
+        elif k == "prim2" and c < 7:
+            n.a[1], n.a[2] = n.a[2], n.a[1]
+            what = "swap-operands"
+        elif k == "prim1":
+            n.a[0] = rng.choice([x for x in ["strlen", "arrlen", "not"] if x != n.a[0]])
+            what = "swap-primitive"
+        elif k in ("num", "str", "bool"):
+            k2 = rng.choice([x for x in ["num", "str", "bool"] if x != k])
+            n.k = k2
+            n.a = {"num": [rng.range(0, 9), 1], "str": [rng.choice(WORDS)], "bool": [rng.chance(1, 2)]}[k2]
+            what = "literal-kind"
+        elif k == "proj":
+            n.a[1] = rng.choice([f for f in FIELDS + ["zz"] if f != n.a[1]])
+            what = "projection-field"
+        elif k == "rec" and n.a[0]:
+            i = rng.below(len(n.a[0]))
+            used = [f for f, _ in n.a[0]]
+            new = rng.choice([f for f in FIELDS + ["zz"] if f not in used] or ["zy"])
+            n.a[0][i] = (new, n.a[0][i][1])
+            n.a[0].sort(key=lambda fe: fe[0])
+            what = "record-literal-field"
+        elif k == "match" and n.a[2] is None and len(n.a[1]) >= 2:
+            del n.a[1][rng.below(len(n.a[1]))]
+            what = "drop-match-arm"
+        elif k == "match" and n.a[2] is not None and c < 5:
+            n.a[2] = None
+            what = "drop-wildcard-arm"
+        elif k == "tag":
+            n.a[0] = rng.choice([t for t in TAGS + ["Zz"] if t != n.a[0]])
+            what = "tag"
+        elif k == "annt":
+            n.x = other_type(n.ty, rng)
+            n.ty = n.x
+            n.x = None
+            what = "inner-annotation"
+        elif k == "let" and n.a[1] is not None:
+            n.a[1] = other_type(n.a[1], rng)
+            what = "let-annotation"
+        elif k == "hole" and c < 4:
+            n.ty = other_type(n.ty, rng)
+            what = "hole-contract"
+        elif k == "if" and c < 5:
+            n.a[rng.range(1, 2)] = Frag(rng, holes=False).lit(other_type(n.ty or NUM, rng), [], 1)
+            what = "if-branch-kind"
+        elif k == "app" and c < 3:
+            n.a[0], n.a[1] = n.a[1], n.a[0]
+            what = "swap-function-argument"
+        if what:
+            break
+    if not what:
+        return None
+    if rng.chance(1, 12):
+        T = other_type(T, rng)
+        what += "+block-annotation"
+    pr = Printer()
+    pr.out("(")
+    pr.term(ast)
+    pr.out(") : ")
+    a0 = pr.pos
+    pr.out(ty_src(T))
+    return {"src": pr.text(), "sexp": to_sexp(ast), "cert": None, "type": T, "ast": ast, "mutation": what,
+            "features": prog["features"], "bad_holes": prog["bad_holes"], "err_sources": prog["err_sources"] + 1,
+            "holes": pr.holes, "hole_annots": pr.hole_annots, "own_annot": (a0, pr.pos), "nodes": pr.nodes}
